@@ -977,6 +977,7 @@ type c47gen struct {
 	kvs      map[string]bool
 	round    uint64
 	onl      map[string]string // addr -> last online token
+	base     uint64 // the case's first round: rounds cross byte boundaries of the big-endian keys (255/256, 65535/65536, 2^32)
 	rpNext   uint64
 	ttNext   uint64
 	sp       map[uint64]bool
@@ -1006,7 +1007,8 @@ func (g *c47gen) newCase() {
 	r := g.r
 	g.accts, g.res, g.creat, g.kvs = map[string]bool{}, map[string]map[uint64]string{}, map[uint64]uint64{}, map[string]bool{}
 	g.onl, g.sp, g.fs, g.unf = map[string]string{}, map[uint64]bool{}, map[uint64]bool{}, map[uint64]bool{}
-	g.round, g.rpNext, g.ttNext = 0, 1, 1
+	g.base = []uint64{0, 0, 0, 249, 505, 65529, 4294967289}[r.Intn(7)]
+	g.round, g.rpNext, g.ttNext = g.base, g.base+1, g.base+1
 	// addresses with shared first bytes (ordering is decided by the last byte) and extreme bytes
 	all := []string{"0000", "0001", "00ff", "0100", "7f00", "7f01", "7fff", "8000", "80ff", "ff00", "fffe", "ffff", "1234", "1235"}
 	g.addrPool = nil
@@ -1038,6 +1040,27 @@ func c47Perm(r *vh.Rng, n int) []int {
 		p[i], p[j] = p[j], p[i]
 	}
 	return p
+}
+
+// qr picks a round for a query / a delete-before bound: around the rounds written so far, and the values whose low
+// byte is 0xff or 0x00 next to them (last-byte arithmetic on big-endian keys)
+func (g *c47gen) qr(slack int) uint64 {
+	r := g.r
+	span := int(g.round-g.base) + slack
+	v := g.base + uint64(r.Intn(span))
+	switch r.Intn(8) {
+	case 0:
+		return v | 0xff
+	case 1:
+		return (v | 0xff) + 1
+	case 2:
+		if v >= 256 {
+			return (v &^ 0xff) - 1
+		}
+	case 3:
+		return uint64(r.Intn(int(g.round) + slack))
+	}
+	return v
 }
 
 func (g *c47gen) addr() string { return g.addrPool[g.r.Intn(len(g.addrPool))] }
@@ -1135,9 +1158,13 @@ func (g *c47gen) writeBatch() {
 				kind, pool = 1, c47AppIdx
 			}
 			idx := pool[r.Intn(len(pool))]
-			if ct, ok := g.creat[idx]; ok {
+			if ct, ok := g.creat[idx]; ok && r.Intn(4) == 0 {
+				g.emit("cdel %d %d", idx, 1-ct) // the other creatable type: no row matches, nothing may be deleted
+			} else if ok {
 				g.emit("cdel %d %d", idx, ct)
 				delete(g.creat, idx)
+			} else if r.Intn(6) == 0 {
+				g.emit("cdel %d %d", idx, kind) // absent: zero rows
 			} else {
 				g.emit("cins %d %d %s", idx, kind, g.addr())
 				g.creat[idx] = kind
@@ -1206,6 +1233,27 @@ func (g *c47gen) writeBatch() {
 			}
 		}
 	}
+	// reads through the open transaction: they must see what the batch has written so far
+	for i := r.Intn(4); i > 0; i-- {
+		switch r.Intn(8) {
+		case 0:
+			g.emit("txalook %s", g.addr())
+		case 1:
+			g.emit("txkvget %s", g.key())
+		case 2:
+			g.emit("txolook %s %d", g.addr(), g.qr(3))
+		case 3:
+			g.emit("txohist %s", g.addr())
+		case 4:
+			g.emit("txrall %s", g.addr())
+		case 5:
+			g.emit("txkvcur %s _ %d 0 1 -", g.prefix(), 1+r.Intn(4))
+		case 6:
+			g.emit("txarowid %s", g.addr())
+		case 7:
+			g.emit("txoall 0")
+		}
+	}
 	// per-round bookkeeping the ledger does in every commit
 	if r.Intn(5) != 0 {
 		k := 1
@@ -1220,7 +1268,7 @@ func (g *c47gen) writeBatch() {
 		g.rpNext += uint64(k)
 	}
 	if r.Intn(3) == 0 {
-		g.emit("rpprune %d", r.Intn(int(g.rpNext)+2))
+		g.emit("rpprune %d", g.qr(3))
 	}
 	if r.Intn(5) != 0 {
 		k := 1 + r.Intn(2)
@@ -1230,19 +1278,19 @@ func (g *c47gen) writeBatch() {
 		}
 		forget := uint64(0)
 		if r.Intn(2) == 0 {
-			forget = uint64(r.Intn(int(g.ttNext) + 2))
+			forget = g.base + uint64(r.Intn(int(g.ttNext-g.base)+2))
 		}
 		g.emit("ttnew %d %d %s", g.ttNext, forget, strings.Join(toks, ","))
 		g.ttNext += uint64(k)
 	}
 	odelAfter := -1
 	if r.Intn(3) == 0 {
-		// the ledger deletes in the same batch as the inserts, always with forgetBefore <= the batch's round
-		// (rows written by this batch are never below forgetBefore); half of the time the deletion gets its own batch
+		// the ledger deletes in the same batch as the inserts (the deletion must see the rows the batch wrote);
+		// half of the time the deletion gets its own batch
 		if r.Bool() {
-			g.emit("odel %d", r.Intn(int(g.round)))
+			g.emit("odel %d", g.qr(3))
 		} else {
-			odelAfter = r.Intn(int(g.round) + 3)
+			odelAfter = int(g.qr(3))
 		}
 	}
 	if r.Intn(3) == 0 {
@@ -1336,26 +1384,26 @@ func (g *c47gen) queries() {
 			}
 			g.emit("kvcur %s %s %d %d %d %s", g.prefix(), cursor, []int{0, 1, 2, 3, 5, 100}[r.Intn(6)], maxBytes, r.Intn(2), excl)
 		case 14, 15:
-			g.emit("olook %s %d", g.addr(), r.Intn(int(g.round)+3))
+			g.emit("olook %s %d", g.addr(), g.qr(3))
 		case 16:
 			g.emit("ohist %s", g.addr())
 		case 17:
 			g.emit("odata %s", g.addr())
 		case 18, 19, 20:
-			g.emit("otop %d %d %d", r.Intn(int(g.round)+2), []int{0, 0, 1, 2, 3}[r.Intn(5)], []int{0, 1, 2, 3, 5, 100}[r.Intn(6)])
+			g.emit("otop %d %d %d", g.qr(2), []int{0, 0, 1, 2, 3}[r.Intn(5)], []int{0, 1, 2, 3, 5, 100}[r.Intn(6)])
 		case 21:
-			g.emit("oexp %d %d", r.Intn(int(g.round)+2), r.Intn(int(g.round)+14))
+			g.emit("oexp %d %d", g.qr(2), g.base+uint64(r.Intn(int(g.round-g.base)+14)))
 		case 22:
 			g.emit("oall %d", []int{0, 1, 2, 3, 100}[r.Intn(5)])
 		case 23:
 			if r.Bool() {
-				g.emit("rplook %d", r.Intn(int(g.rpNext)+2))
+				g.emit("rplook %d", g.qr(3))
 			} else {
 				g.emit("rpall")
 			}
 		case 24:
 			if r.Intn(4) == 0 {
-				g.emit("ttload %d", r.Intn(int(g.ttNext)+2))
+				g.emit("ttload %d", g.qr(3))
 			} else {
 				g.emit("ttload %d", g.ttNext-1)
 			}
@@ -1452,6 +1500,10 @@ var c47Prologue = []string{
 	"begin", "oins 0002 6 0.0.0.0", "round 6", "commit",
 	"begin", "odel 6", "commit",
 	"ohist 0002",
+	// second part: LookupOnline at a round whose low byte is 0xff, a read through the open batch, DeleteCreatable with the other type
+	"begin", "oins 0003 200 4.0.9.1", "cins 7 0 0001", "txolook 0003 200", "round 7", "commit",
+	"olook 0003 255", "olook 0003 511",
+	"begin", "cdel 7 1", "commit", "clook 7 0",
 }
 
 func c47Generate(seed uint64, cases int) []string {
